@@ -16,7 +16,7 @@ ASSUME = ["demonic oracle (kani/src/oracle.rs)", "set model + reference semantic
 
 def run(tier, seed):
     return kani_check.run("C09", ["c09_"], tier, seed, dict(functions=FUNCS, bounds=BOUNDS, assumptions=ASSUME),
-                          jobs=3, timeout_s=2400 if tier == "quick" else 5400)
+                          jobs=4)
 
 
 def replay(path):
